@@ -308,6 +308,27 @@ pub fn build(w: &World, set: &NodeSet, layout: Layout) -> Result<MemReplica, Str
     Ok(r)
 }
 
+/// A fresh replica built from explicit ingest batches: one transaction, `add_commands` per batch
+/// followed by `flush`, one commit at the end (segment boundaries = batch boundaries and branch
+/// switches inside a batch).
+pub fn build_batches(w: &World, batches: &[Vec<usize>]) -> Result<MemReplica, String> {
+    let mut r = MemReplica::new_mem(w.graph);
+    if batches.iter().all(|b| b.is_empty()) {
+        return Ok(r);
+    }
+    let mut trx = r.trx();
+    for b in batches {
+        if b.is_empty() {
+            continue;
+        }
+        let batch: Vec<Cmd> = b.iter().map(|&i| w.cmds[i].clone()).collect();
+        r.add(&mut trx, &batch).map_err(|e| format!("build add: {e}"))?;
+        r.flush(&mut trx).map_err(|e| format!("build flush: {e}"))?;
+    }
+    r.commit(trx).map_err(|e| format!("build commit: {e}"))?;
+    Ok(r)
+}
+
 /// Committed node set of a replica (empty when the graph is absent): a graph walk from the
 /// committed heads through `Storage::get_segment` (no fact dump, no hello head).
 pub fn committed(w: &World, r: &mut MemReplica) -> Result<NodeSet, String> {
